@@ -32,7 +32,10 @@ type SweepIn struct {
 	Payloads []hx.B `json:"payloads,omitempty"`
 }
 
-var sweepSvcCode = map[string]int{"vnc": 1, "ssh-simulator": 2, "ipp": 3, "ftp-data-plain": 4, "ftp-data-tls": 5, "deploy": 6,
+var sweepScenario int // the scenario of the case this child runs (the proxies' backend behaviour)
+
+var sweepSvcCode = map[string]int{"proxy:dns-proxy/udp": 12, "proxy:dns-proxy/tcp": 13, "proxy:copy/udp": 14, "proxy:copy/tcp": 15, "proxy:http-proxy/tcp": 16,
+	"vnc": 1, "ssh-simulator": 2, "ipp": 3, "ftp-data-plain": 4, "ftp-data-tls": 5, "deploy": 6,
 	"redis": 7, "ldap": 8, "snmp": 9, "memcached": 10, "telnet": 11}
 
 func be16(v uint16) []byte { b := make([]byte, 2); binary.BigEndian.PutUint16(b, v); return b }
@@ -89,7 +92,28 @@ func vncScriptPaced(sc int) ([][]byte, int) {
 }
 
 // telnet: input that fills a fixed-size internal buffer without ever completing a token
+// terminal modes in which the buffer-filling input arrives: plain, inside a bracketed paste
+// (ESC [ 2 0 0 ~), after an IAC negotiation, in password (no-echo) mode - scenario = mode*100 + shape
+func terminalMode(mode int) [][]byte {
+	switch mode {
+	case 1:
+		return [][]byte{[]byte("\x1b[200~")}
+	case 2:
+		return [][]byte{{0xff, 0xfb, 0x1f, 0xff, 0xfd, 0x01, 0xff, 0xfa, 0x1f, 0, 80, 0, 24, 0xff, 0xf0}}
+	case 3: // telnet asks for the password without echo after the user name
+		return [][]byte{[]byte("root\r\n")}
+	}
+	return nil
+}
+
 func telnetScript(sc int) [][]byte {
+	if sc >= 100 {
+		return append(terminalMode(sc/100), telnetShape(sc%100)...)
+	}
+	return telnetShape(sc)
+}
+
+func telnetShape(sc int) [][]byte {
 	rep := func(b byte, n int) []byte { return []byte(strings.Repeat(string([]byte{b}), n)) }
 	switch sc {
 	case 0: // ESC + 255 bytes without a final letter: the 256-byte input buffer is full of an unfinished key sequence
@@ -102,6 +126,8 @@ func telnetScript(sc int) [][]byte {
 		return [][]byte{rep('a', 5000)}
 	case 4: // ESC sequences back to back, 300 bytes, and telnet IAC bytes
 		return [][]byte{cat(rep(0x1b, 300), rep(0xff, 300))}
+	case 6: // ESC + 300 bytes that are neither letters nor '~' (what a paste may contain)
+		return [][]byte{cat([]byte{0x1b}, rep('1', 150), rep(';', 150))}
 	default: // exactly one byte short of the buffer, then silence or close
 		return [][]byte{cat([]byte{0x1b}, rep('1', 254))}
 	}
@@ -132,6 +158,9 @@ func ippScript(sc int) [][]byte {
 }
 
 func buildSweepService(name, scratch string, ch *countChannel) services.Servicer {
+	if strings.HasPrefix(name, "proxy:") {
+		return buildProxy(strings.TrimPrefix(name, "proxy:"), sweepScenario, ch)
+	}
 	if name == "ftp-data-plain" {
 		return buildFtpData(scratch, false, ch)
 	}
@@ -190,6 +219,9 @@ func runSweepConn(svc services.Servicer, sp Spec, idx int) (ob ConnObs, gone boo
 	}
 	if in.Scenario == 10 {
 		return runCutConn(svc, sp, idx)
+	}
+	if strings.HasPrefix(in.Svc, "proxy:") {
+		return runProxyConn(svc, sp, idx)
 	}
 	deadline := time.Duration(sp.DeadlineMs) * time.Millisecond
 	wait := time.Duration(sp.WaitMs) * time.Millisecond
@@ -251,8 +283,13 @@ func runSweepConn(svc services.Servicer, sp Spec, idx int) (ob ConnObs, gone boo
 						if in.Scenario == 0 {
 							w.Write([]byte("ls\n"))
 						} else {
-							// the shell's line editor has the same 256-byte key-sequence buffer as telnet's
-							w.Write(telnetScript(0)[0])
+							// the shell's line editor has the same 256-byte key-sequence buffer as telnet's;
+							// Req carries the terminal mode and the shape ("mode,shape")
+							mode, shape := 0, 0
+							fmt.Sscanf(in.Req, "%d,%d", &mode, &shape)
+							for _, sg := range append(terminalMode(mode), telnetShape(shape)...) {
+								w.Write(sg)
+							}
 							w.Write([]byte("more"))
 						}
 					}
